@@ -16,7 +16,7 @@ THEOREMS = [
     (NS + "C05_fragments_delivered_without_expiry", "witness"),
 ]
 # secondary tie (DESIGN 4.2): kernels regenerated from the source on every run, proved equal to the model (Props/Equiv<Group>.lean)
-EQUIV = {"Frag": ["Mpgs.Equiv.gen_split_loop", "Mpgs.Equiv.gen_split"]}
+EQUIV = {"Frag": ["Mpgs.Equiv.gen_split_loop", "Mpgs.Equiv.gen_split"], "Seq": ["Mpgs.Equiv.gen_diff"], "Ack": ["Mpgs.Equiv.gen_ack_names"]}
 ASSUMPTIONS = [
     "safety half (C05_never_dropped, for every history without disconnect): a guaranteed single-datagram message stays queued, or parked under "
     "a datagram that still awaits its ack/time-out, or reported delivered - under FreshAlong (the datagram number a build takes is not the key "
@@ -72,7 +72,7 @@ def sizes_for(mtu):
     return sorted(s)
 
 
-def gen_size_case(real, rng, cid, mtu, lengths, loss_plan, later=(), lossy=None, retry=-1, cb=True):
+def gen_size_case(real, rng, cid, mtu, lengths, loss_plan, later=(), lossy=None, retry=-1, cb=True, start_ss=None):
     """guaranteed sends of the given lengths from a to b; loss_plan(k, direction) -> lost? for emission k; then healed"""
     lines = ["case %s" % cid]
     glog = []
@@ -89,6 +89,11 @@ def gen_size_case(real, rng, cid, mtu, lengths, loss_plan, later=(), lossy=None,
         emit("new b server")
         for e in "ab":
             emit("set %s key=%s status=2 si=16 ka=96 ot=1024" % (e, connlib.KEY.hex()))
+        if start_ss is not None:
+            # the datagram sequence numbers of both ends are about to wrap (65535 -> 1): a datagram lost just before the wrap is named
+            # - or not named - by acknowledgements that come from beyond it
+            for e in "ab":
+                emit("set %s ss=%d" % (e, start_ss))
         seed = rng.randint(1, 10 ** 6)
         # warm-up over a perfect link: a connection that has already carried a few messages each way
         for w in range(3):
@@ -327,7 +332,13 @@ def run(ctx):
                     (e == "a" and trel < _d) if _k == "blackout" else (trel < _d) if _k == "blackout2" else (e == "a" and k in _l))
             # every third case sends without a callback (the default of send_guaranteed)
             cases.append(gen_size_case(real, rng, "z%d_%d" % (mtu, j), mtu, lengths, plan, lossy=3000 if kind.startswith("blackout") else None,
-                                       cb=(j % 3 != 2)))
+                                       cb=(j % 3 != 2), start_ss=(65535 - 7 - rng.randint(0, 14)) if j % 4 == 1 else None))
+    # a fragment datagram lost within the last few sequence numbers before the wrap 65535 -> 1, its predecessor received, the following
+    # fragment datagrams - and with them the peer's acknowledgements - already beyond the wrap
+    for m in range(0, 6):
+        plan = (lambda k, e, trel, msgs: e == "a" and k == 0)
+        cases.append(gen_size_case(real, rng, "zw%d" % m, 1500, [3 * 1024 + 10 + m], plan, lossy=600, cb=(m % 2 == 0),
+                                   start_ss=65531 - m))
     # overtaken by more newer messages than either receive window is wide
     for j, n_other in enumerate([40, 250, 257, 300, 520][:ctx.scale(5, 5)]):
         for fault in ("loss", "reorder"):
